@@ -581,6 +581,12 @@ class Evaluator:
                             state = ("hplace", tgt[1], tgt[2], False)
                     else:
                         stable = first and ltype.startswith("&") and not ltype.startswith("&mut ")
+                        if stable and tag(val) == "param" and isinstance(val[1], int):
+                            # a shared view (`&self` helper) of something the evaluated function holds by `&mut`: the fields are whatever the
+                            # function has stored so far, not their entry values
+                            top = self.stack[0].body if getattr(self, "stack", None) else frame.body
+                            if val[1] + 1 < len(top.locals) and top.locals[val[1] + 1]["ty"].startswith("&mut "):
+                                stable = False
                         state = ("hplace", val, (), stable)
                 else:
                     # deref of a pointer stored in the heap: load it first
